@@ -64,7 +64,7 @@ func runC06(c *core.Ctx) {
 }
 
 func c06Case(c *core.Ctx, rng *rand.Rand, dir string, idx int, a *apiTrack, st *probeStats) (stop bool) {
-	point := []string{"idle", "mid-burst", "blocked-send", "racing-api"}[rng.Intn(4)]
+	point := []string{"idle", "mid-burst", "blocked-send", "racing-api", "deleted-watch-pending"}[rng.Intn(5)]
 	cons := c05consumers[rng.Intn(len(c05consumers))]
 	buf := []int{-1, 0, 1, 16, 4096}[rng.Intn(5)]
 	closers := 1 + rng.Intn(8)
@@ -91,6 +91,9 @@ func c06Case(c *core.Ctx, rng *rand.Rand, dir string, idx int, a *apiTrack, st *
 		dirs = append(dirs, d)
 		w.Add(d)
 	}
+	wf := filepath.Join(base, "watched-file")
+	os.WriteFile(wf, nil, 0o644)
+	w.Add(wf)
 	sends0 := atomic.LoadInt64(&st.sends)
 	var allClosed int32 // set once every Close call has returned
 	var afterClose int64
@@ -142,7 +145,18 @@ func c06Case(c *core.Ctx, rng *rand.Rand, dir string, idx int, a *apiTrack, st *
 	// mutator
 	stopMut := make(chan struct{})
 	var mutDone sync.WaitGroup
-	if point != "idle" {
+	if point == "deleted-watch-pending" {
+		// a watched path is deleted and its notifications are (with a consumer that does not
+		// receive) still unprocessed when Close is called: the kernel has dropped that watch already
+		for k := 0; k < 1+rng.Intn(4); k++ {
+			os.Chmod(wf, 0o600+os.FileMode(k))
+		}
+		os.Remove(wf)
+		if rng.Intn(2) == 0 {
+			os.RemoveAll(dirs[2])
+		}
+	}
+	if point != "idle" && point != "deleted-watch-pending" {
 		mutDone.Add(1)
 		seed := rng.Int63()
 		go func() {
@@ -168,6 +182,8 @@ func c06Case(c *core.Ctx, rng *rand.Rand, dir string, idx int, a *apiTrack, st *
 	switch point {
 	case "mid-burst", "racing-api":
 		time.Sleep(time.Duration(rng.Intn(3000)) * time.Microsecond)
+	case "deleted-watch-pending":
+		time.Sleep(time.Duration(rng.Intn(2000)) * time.Microsecond)
 	case "blocked-send":
 		time.Sleep(time.Duration(1000+rng.Intn(3000)) * time.Microsecond) // consumer modes that do not receive park the reader
 	}
